@@ -152,6 +152,13 @@ impl FromStr for NetworkAddress {
     type Err = anyhow::Error;
 
     fn from_str(s: &str) -> Result<Self> {
+        // Accept our own `Display` output, "ip:port (four-words)": the words are a
+        // rendering of the socket address in front of them.
+        let s = match s.split_once(" (") {
+            Some((addr, words)) if words.ends_with(')') => addr,
+            _ => s,
+        };
+
         // First try to parse as a socket address
         if let Ok(socket_addr) = SocketAddr::from_str(s) {
             return Ok(Self::new(socket_addr));
